@@ -10,6 +10,7 @@
 -/
 import AisVerif.Lemmas.Char
 import AisVerif.Spec.Layouts
+import AisVerif.Lemmas.Encode
 
 namespace AisVerif.C04
 open AisVerif Spec
@@ -271,5 +272,79 @@ theorem t15station2 (cfg : Cfg) (bs : List UInt8) (m : Msg) (ht : field bs 0 6 =
   simp only []
   repeat' split
   all_goals (unfold Layout.t15station2; layout_rfl)
+
+/-! ### Independence from the neighbouring fields
+
+`field bs off w` looks at the bits `off … off+w-1` and at nothing else: two payloads that agree on
+those bits report the same value, whatever all the other fields hold. -/
+
+theorem field_indep (a b : List UInt8) (off w : Nat)
+    (h : ∀ i, off ≤ i → i < off + w → bit a i = bit b i) : field a off w = field b off w := by
+  induction w with
+  | zero => rfl
+  | succ w ih =>
+    simp only [field]
+    rw [ih (fun i h1 h2 => h i h1 (by omega)), h (off + w) (by omega) (by omega)]
+
+/-- The value a field reports is below `2^w`: it can never carry bits of a neighbour. -/
+theorem field_bound (bs : List UInt8) (off w : Nat) : field bs off w < 2 ^ w := field_lt bs off w
+
+/-- Changing a row's bits changes that row only: every other row of a table whose bit range is
+    disjoint from `[off, off+w)` renders identically on payloads that differ only inside that range. -/
+theorem render_indep (e : FieldSpec) (a b : List UInt8) (off w : Nat)
+    (hdisj : e.off + e.w ≤ off ∨ off + w ≤ e.off)
+    (hsame : ∀ i, ¬ (off ≤ i ∧ i < off + w) → bit a i = bit b i) : e.render a = e.render b := by
+  have : field a e.off e.w = field b e.off e.w :=
+    field_indep a b e.off e.w (fun i h1 h2 => hsame i (by omega))
+  unfold FieldSpec.render
+  rw [this]
+
+/-! ### The statement's own form: transmitted values come back
+
+`encodeRows n rows` (Lemmas/Encode.lean) is the `n`-bit payload that carries each row's value at its
+bit offset and width, most significant bit first (`field_encodeRows`: every row reads back).  For
+every assignment of values to non-overlapping fields, a message decoded from that payload reports
+exactly those values under the keys of the layout table. -/
+
+theorem roundtrip (m : Msg) (table : List FieldSpec) (n : Nat) (rows : List Row) (hok : RowsOK n rows)
+    (hrep : Reports m (encodeRows n rows) table) :
+    ∀ e ∈ table, ∀ r ∈ rows, r.off = e.off → r.w = e.w → m.get e.key = some (e.renderVal r.v) := by
+  intro e he r hr ho hw
+  rw [hrep e he]
+  have hf := field_encodeRows n rows hok r hr
+  rw [ho, hw] at hf
+  unfold FieldSpec.render
+  rw [hf]
+
+/-- Instance: a type-6 header. Whatever MMSIs, sequence number, flags and application identifier are
+    transmitted (each within its width), the decoded message reports exactly them. -/
+theorem roundtrip_t06 (cfg : Cfg) (rep mmsi seqno dest retransmit dac fid : Nat) (m : Msg)
+    (h1 : rep < 2 ^ 2) (h2 : mmsi < 2 ^ 30) (h3 : seqno < 2 ^ 2) (h4 : dest < 2 ^ 30) (h5 : retransmit < 2 ^ 1)
+    (h6 : dac < 2 ^ 10) (h7 : fid < 2 ^ 6)
+    (hp : parseMessage cfg (encodeRows 88 [⟨0, 6, 6⟩, ⟨6, 2, rep⟩, ⟨8, 30, mmsi⟩, ⟨38, 2, seqno⟩, ⟨40, 30, dest⟩,
+        ⟨70, 1, retransmit⟩, ⟨72, 10, dac⟩, ⟨82, 6, fid⟩]) = ok m) :
+    m.get .repeat_indicator = some (.nat rep) ∧ m.get .mmsi = some (.nat mmsi) ∧ m.get .seqno = some (.nat seqno) ∧
+    m.get .dest_mmsi = some (.nat dest) ∧ m.get .retransmit = some (.bool (retransmit == 1)) ∧
+    m.get .dac = some (.nat dac) ∧ m.get .fid = some (.nat fid) := by
+  have hok : RowsOK 88 [⟨0, 6, 6⟩, ⟨6, 2, rep⟩, ⟨8, 30, mmsi⟩, ⟨38, 2, seqno⟩, ⟨40, 30, dest⟩,
+      ⟨70, 1, retransmit⟩, ⟨72, 10, dac⟩, ⟨82, 6, fid⟩] := by
+    refine ⟨?_, ?_⟩
+    · intro r hr
+      simp only [List.mem_cons, List.not_mem_nil, or_false] at hr
+      rcases hr with rfl | rfl | rfl | rfl | rfl | rfl | rfl | rfl <;> simp only [] <;> omega
+    · simp [List.pairwise_cons]
+  have ht : field (encodeRows 88 [⟨0, 6, 6⟩, ⟨6, 2, rep⟩, ⟨8, 30, mmsi⟩, ⟨38, 2, seqno⟩, ⟨40, 30, dest⟩,
+      ⟨70, 1, retransmit⟩, ⟨72, 10, dac⟩, ⟨82, 6, fid⟩]) 0 6 = 6 :=
+    field_encodeRows 88 _ hok ⟨0, 6, 6⟩ (by simp)
+  have hrep := t06 cfg _ m ht hp
+  have rt := roundtrip m Layout.t06 88 _ hok hrep
+  refine ⟨?_, ?_, ?_, ?_, ?_, ?_, ?_⟩
+  · exact rt ⟨.repeat_indicator, 6, 2, .nat⟩ (by simp [Layout.t06, Spec.common]) ⟨6, 2, rep⟩ (by simp) rfl rfl
+  · exact rt ⟨.mmsi, 8, 30, .nat⟩ (by simp [Layout.t06, Spec.common]) ⟨8, 30, mmsi⟩ (by simp) rfl rfl
+  · exact rt ⟨.seqno, 38, 2, .nat⟩ (by simp [Layout.t06, Spec.common]) ⟨38, 2, seqno⟩ (by simp) rfl rfl
+  · exact rt ⟨.dest_mmsi, 40, 30, .nat⟩ (by simp [Layout.t06, Spec.common]) ⟨40, 30, dest⟩ (by simp) rfl rfl
+  · exact rt ⟨.retransmit, 70, 1, .flag⟩ (by simp [Layout.t06, Spec.common]) ⟨70, 1, retransmit⟩ (by simp) rfl rfl
+  · exact rt ⟨.dac, 72, 10, .nat⟩ (by simp [Layout.t06, Spec.common]) ⟨72, 10, dac⟩ (by simp) rfl rfl
+  · exact rt ⟨.fid, 82, 6, .nat⟩ (by simp [Layout.t06, Spec.common]) ⟨82, 6, fid⟩ (by simp) rfl rfl
 
 end AisVerif.C04
